@@ -141,6 +141,15 @@ def stepChol : List String → Option String
     let pd ← pd.toNat?; let o ← o.toNat?; let bc ← BC.ofString b; let n ← n.toNat?
     if pd ≠ 1 ∧ pd ≠ 2 then none else
     some (cholP pd o bc n (reg = "1"))
+  | ["sample0", pd, o, n, w] => do
+    let pd ← pd.toNat?; let o ← o.toNat?; let n ← n.toNat?; let w ← parseVec w
+    if pd ≠ 1 ∧ pd ≠ 2 then none else
+    if !accepts o .zero n then some "err" else
+    let P := toQ (gram (if pd = 1 then diffOp o .zero n else diffOp2D o .zero n))
+    if w.length ≠ P.length then some "err" else
+    some (match sampleZero P w with
+      | none => "refused"
+      | some (y, ok) => fmtVec y ++ " | " ++ fmtBool ok)
   | ["chol", A] => do
     let A ← parseMat A
     some (match sparseCholesky A with
